@@ -1256,7 +1256,7 @@ def run(ctx, out, replay=None):
         # every third case writes equal numbers in different ways; one in 20 has two grid lines one unit in the last place
         # apart (dyadic numbers: compared with the model), one in 40 the same with decimal numbers and one in 40 plain
         # decimal coordinates on the direct path
-        big = j % 125 == 51
+        big = j % (250 if ctx.quick() else 125) == 51     # quick: two of them (each up to ~100 s of vm_compute), thorough: one in 125
         near = None if big else "dyadic" if j % 20 == 7 else "decimal" if j % 40 == 14 else "plain-decimal" if j % 40 == 34 else None
         cases.append(gen_case(ctx.rng, small=(j % 2 == 0), alloc=(None if j % 8 != 5 else (j % 16 != 5)),
                               via=("ifile" if j % 8 == 5 and (j // 16) % 3 != 0 else "file"), big=big,
